@@ -85,3 +85,15 @@ Proof.
   constructor; [|constructor]. unfold rec_ok, fasta_ok. cbn [fst snd]. repeat split; try assumption.
   apply gb_desc_no_eol; try assumption. now apply nl_to_space_no_eol.
 Qed.
+
+(* Fasta.WriteTo puts ANY description on one line (strings.ReplaceAll "\n" " "):
+   a description with line feeds reads back with blanks in their place *)
+Theorem fasta_record_multiline desc data post o e a k :
+  no_byte 13 desc -> no_byte 10 data -> no_byte 13 data -> no_gt data -> stops post ->
+  exists o' e',
+    fasta_parser (mkst (fasta_format desc data ++ post) o e a k) =
+    (Ok (nl_to_space desc, data), mkst post o' e' (a + zlen (fasta_format desc data)) k).
+Proof.
+  intros Hd H10 H13 Hgt Hp. rewrite <- (fasta_format_one_line desc data).
+  apply fasta_record; [|exact Hp]. repeat split; try assumption. now apply nl_to_space_no_eol.
+Qed.
